@@ -48,7 +48,7 @@ def check_one(desc, acc):
     size = len(E) + len(N)
     n_e = len(E)
     churns = [("churn", i, j) for i in range(n_e) for j in range(n_e) if i != j] if (kind == "H" and 2 <= n_e <= 4) else ([2] if n_e >= 2 else [])
-    for detour in [False, True] + churns:
+    for detour in [False, True] + churns + (["shrink"] if kind != "D" else []):
         h = C.build(desc, detour=detour)
         w = dict(base, detour=detour)
 
@@ -74,6 +74,15 @@ def check_one(desc, acc):
                 bad("degree_sequence", f, "degree_sequence: %r / %r, definition %r" % (g, g2, deg))
             elif sum(g.values()) != sum(len(rec_nodes(kind, e)) for e in FE):
                 bad("degree_sum", f, "degrees do not sum to total size")
+            elif kind == "H":
+                # ... of the hyperedges the object itself lists under the same filter
+                listed = q(lambda: h.get_edges(**kw))
+                try:
+                    tot = sum(len(e) for e in listed)
+                except Exception:
+                    tot = None
+                if tot != sum(g.values()):
+                    bad("degree_sum", f, "degrees sum to %r, the listed hyperedges %r have total size %r" % (sum(g.values()), listed, tot))
             if kind != "M":
                 hist = dict(Counter(deg.values()))
                 g = q(lambda: h.degree_distribution(**kw))
@@ -137,6 +146,46 @@ def check_one(desc, acc):
             if len(comps) >= 2 and mx >= 2:
                 acc.nontrivial.add(hash(("cc", repr(want), f)))
             acc.outcomes.add(hash(repr(want)))
+        if kind != "H" or detour not in (False, True):
+            continue
+        # --- the same object after a node-only change, and after an in-place change of its hyperedges: every connectivity
+        #     query above has already been asked once of this object (answers must not be remembered across changes)
+        xn = "zz8" if not N or isinstance(N[0], str) else 10 ** 6 + 1
+        steps = [("add_node", lambda: h.add_node(xn), list(N) + [xn], list(E))]
+        if N:
+            steps.append(("add_edge", lambda: h.add_edge((N[0], xn)), list(N) + [xn], list(E) + [(N[0], xn)]))
+            steps.append(("remove_edge", lambda: h.remove_edge((N[0], xn)), list(N) + [xn], list(E)))
+        steps.append(("remove_node", lambda: h.remove_node(xn), list(N), list(E)))
+        for sname, act, N2, E2 in steps:
+            try:
+                act()
+            except Exception as e:
+                bad("second-call/%s" % sname, (), "raised %s: %s" % (type(e).__name__, e))
+                break
+            for f in FILTERS[:1] + FILTERS[2:4] + FILTERS[6:8]:
+                kw = dict(f)
+                k = fsize(f)
+                FE = [e for e in E2 if k is None or len(e) == k]
+                acc.evaluations += 1
+                comps = components(N2, FE)
+                want = canon_comps(comps)
+                g = q(lambda: h.connected_components(**kw))
+                try:
+                    ok = canon_comps([set(c) for c in g]) == want
+                except Exception:
+                    ok = False
+                if not ok:
+                    bad("second-call/connected_components", f, "after %s on the same object: %r, definition %r" % (sname, g, want))
+                if not N2:
+                    continue
+                g = (q(lambda: h.is_connected(**kw)), q(lambda: h.num_connected_components(**kw)), q(lambda: h.largest_component_size(**kw)))
+                wantt = (len(comps) == 1, len(comps), max(len(c) for c in comps))
+                if g != wantt:
+                    bad("second-call/component-summaries", f, "after %s on the same object: (is_connected, number, largest size) = %r, definition %r" % (sname, g, wantt))
+                deg = {n: sum(1 for e in FE if n in e) for n in N2}
+                g = q(lambda: h.degree_sequence(**kw))
+                if g != deg:
+                    bad("second-call/degree_sequence", f, "after %s on the same object: %r, definition %r" % (sname, g, deg))
 
 
 def corpus(tier):
